@@ -334,6 +334,15 @@ func parseOperations(operationsJSON []byte) (operations []*HTTPOperation, batchM
 		batchMode = true
 	}
 
+	// a json null decodes into a nil operation which we can't do anything with
+	if payloadErr == nil {
+		for _, operation := range operations {
+			if operation == nil {
+				return nil, batchMode, errors.New("encountered null instead of an operation")
+			}
+		}
+	}
+
 	return operations, batchMode, payloadErr
 }
 
